@@ -128,6 +128,8 @@ def build_ops():
         lambda s, a: a.pinv(1, threshold=1e-10))
     add('pinv(no sweeps)', 1, lambda s, i: isvec(O(s, i)) and O(s, i).order >= 2 and b1(O(s, i)) and admissible(O(s, i)),
         lambda s, a: a.pinv(1, threshold=1e-10, ortho_l=False, ortho_r=False), base='pinv', may_raise=True)
+    add('tt2qtt(dummy-factors)', 1, lambda s, i: O(s, i).order <= 4, lambda s, a: a.tt2qtt([[m, 1] for m in a.row_dims], [[n, 1] for n in a.col_dims]), base='tt2qtt')
+    add('tt2qtt(leading-dummy-factors)', 1, lambda s, i: O(s, i).order <= 4, lambda s, a: a.tt2qtt([[1, m] for m in a.row_dims], [[1, n] for n in a.col_dims]), base='tt2qtt')
     add('tt2qtt(threshold)', 1, true1, lambda s, a: a.tt2qtt([[m] for m in a.row_dims], [[n] for n in a.col_dims], threshold=1e-12), base='tt2qtt')
     add('diag', 1, lambda s, i: isvec(O(s, i)), lambda s, a: a.diag([0]))
     add('diag(all)', 1, lambda s, i: isvec(O(s, i)), lambda s, a: a.diag(list(range(a.order))), base='diag')
@@ -213,6 +215,11 @@ def build_ops():
     add('ode.hod(order4,norm2)', 2, en_ax('hpd'), lambda s, A, x: ode.hod(A, x, 0.05, 2, order=4, normalize=2, progress=False), base='ode.hod')
     add('ode.hod(previous_value)', 3, en_axb('hpd'), lambda s, A, x, p: ode.hod(A, x, 0.05, 2, previous_value=p, normalize=0, progress=False),
         base='ode.hod')
+    # a user-supplied differencing operator: any live operator of the right shape is a legal argument (results of earlier sums
+    # have reducible ranks, which a compression inside the routine would change)
+    same_op = lambda s, i, k: b1(O(s, k)) and list(O(s, k).row_dims) == list(O(s, i).row_dims) and list(O(s, k).col_dims) == list(O(s, i).col_dims)
+    add('ode.hod(op_hod)', 3, lambda s, i, j, k: tagged(s, i, 'hpd') and vec_for(s, i, j) and same_op(s, i, k),
+        lambda s, A, x, H: ode.hod(A, x, 0.05, 2, op_hod=H, threshold=1e-12, normalize=0, progress=False), base='ode.hod')
     add('ode.errors_expl_euler', 3, en_axb('hpd'), lambda s, A, x, y: ode.errors_expl_euler(A, [x, y], [0.1]))
     add('ode.errors_impl_euler', 3, en_axb('hpd'), lambda s, A, x, y: ode.errors_impl_euler(A, [x, y], [0.1]))
     add('ode.errors_trapezoidal', 3, en_axb('hpd'), lambda s, A, x, y: ode.errors_trapezoidal(A, [x, y], [0.1]))
